@@ -75,9 +75,13 @@ func (m *Model) PullMeterReadings(ctx context.Context, opts ...resource.ReadOpti
 		defer close(send)
 		for change := range recv {
 			value := change.Value.(*traits.MeterReading)
-			send <- PullMeterReadingChange{
+			select {
+			case <-ctx.Done():
+				return
+			case send <- PullMeterReadingChange{
 				Value:      value,
 				ChangeTime: change.ChangeTime,
+			}:
 			}
 		}
 	}()
